@@ -20,3 +20,12 @@ Definition run_router (i : bool * list (Z * Z * Z) * list (Z * Z) * list hop * Z
 Definition run_maxspread (i : option Z * option Z * Z * Z * Z) : list Z :=
   match i with (b, m, offer, ret, spread) =>
     obs_of (fun _ => []) (assert_max_spread (c_default_spread the_consts) (c_max_spread the_consts) b m offer ret spread) end.
+
+(* pure liquidity-tolerance stream: (kind, tol, deposits, reserves, minted amount, supply); kind 0 = constant-product pair,
+   1 = stableswap pair, 2 = three-asset pool *)
+Definition run_tol (i : Z * option Z * list Z * list Z * Z * Z) : list Z :=
+  match i with (kind, tol, ds, rs, amount, supply) =>
+    obs_of (fun _ => [])
+      (if kind =? 0 then assert_slippage_cp tol (nth 0 ds 0) (nth 1 ds 0) (nth 0 rs 0) (nth 1 rs 0)
+       else assert_slippage_stable tol (sumZ ds) (sumZ rs) amount supply)
+  end.
